@@ -1630,6 +1630,27 @@ class Enum(String, SchemaType, Emulated, TypeEngine[Union[str, enum.Enum]]):
         """
         self._enum_init(enums, kw)  # type: ignore[arg-type]
 
+    @util.memoized_property
+    def _static_cache_key(self):
+        # Enum receives its own arguments through **kw, which the generic
+        # inspection of the constructor signature does not see
+        key = TypeEngine._static_cache_key.fget(self)  # type: ignore[attr-defined]  # noqa: E501
+        if not isinstance(key, tuple):
+            return key
+        return key + tuple(
+            (k, getattr(self, k, None))
+            for k in (
+                "enum_class",
+                "name",
+                "schema",
+                "native_enum",
+                "create_constraint",
+                "values_callable",
+                "validate_strings",
+                "_omit_aliases",
+            )
+        ) + (("enums", tuple(getattr(self, "enums", ()))),)
+
     @property
     def _enums_argument(self):
         if self.enum_class is not None:
